@@ -296,8 +296,12 @@ impl Client {
 
 /// A burst of large blocks must not be dropped by the kernel at OUR socket (that would be an un-modelled loss).
 pub fn big_rcvbuf(sock: &UdpSocket) {
+    rcvbuf(sock, 16 * 1024 * 1024)
+}
+
+pub fn rcvbuf(sock: &UdpSocket, bytes: i32) {
     use std::os::unix::io::AsRawFd;
-    let sz: libc::c_int = 16 * 1024 * 1024;
+    let sz: libc::c_int = bytes;
     unsafe {
         let p = &sz as *const libc::c_int as *const libc::c_void;
         if libc::setsockopt(sock.as_raw_fd(), libc::SOL_SOCKET, libc::SO_RCVBUFFORCE, p, 4) != 0 {
